@@ -313,6 +313,8 @@ def spec_api(I, name, args):
         a, idx, v = args
         it = idx.term if isinstance(idx, KeyVal) else (_keyterm(I, idx) if isinstance(idx, VTuple) else _int(idx))
         return VArr(z3.Store(a.t, it, _int(v)))
+    if name == 'same':
+        return VBool(to_pyval(args[0]) == to_pyval(args[1]))
     if name == 'at':
         from . import builtins as B
         return B.as_vseq(I, args[0]).elem(_int(args[1]))
@@ -336,8 +338,96 @@ def spec_api(I, name, args):
             else:
                 raise Unsupported('forall sort ' + ch)
         body = B.eval_merged(I, lambda: VBool(truthy(I.call(fn, vals, {}))))
+        pats = choose_patterns(bound, body.t)
+        if pats:
+            return VBool(z3.ForAll(bound, body.t, patterns=pats))
         return VBool(z3.ForAll(bound, body.t))
     raise Unsupported(f'spec api {name}')
 
 
-SPEC_API = {'at', 'ghost_zero_int', 'ghost_zero_key', 'mk_key', 'blen', 'bat', 'dcount', 'dord', 'smem', 'llen', 'lat', 'sel', 'upd', 'forall'}
+_PATTERN_OK_KINDS = None
+
+
+def choose_patterns(bound, body, max_alternatives=4):
+    """Explicit, arithmetic-free instantiation patterns for a quantified invariant clause.
+
+    z3's automatic choice prefers a single term covering all bound variables even when that term
+    contains arithmetic (`arr[q - start[l]]`), and matching such a term is syntactic and fragile.
+    Here: candidate terms are applications of uninterpreted functions / array reads / datatype
+    constructors that contain a bound variable and no arithmetic, comparison, boolean or
+    if-then-else operator anywhere inside; alternatives are small covers of all bound variables."""
+    bids = {b.get_id(): i for i, b in enumerate(bound)}
+    ok_kinds = {z3.Z3_OP_UNINTERPRETED, z3.Z3_OP_SELECT, z3.Z3_OP_DT_CONSTRUCTOR, z3.Z3_OP_DT_ACCESSOR}
+    info = {}       # term id -> (clean?, frozenset(bound indices), size)
+
+    def visit(t):
+        k = t.get_id()
+        if k in info:
+            return info[k]
+        if k in bids:
+            r = (True, frozenset([bids[k]]), 1)
+        elif z3.is_quantifier(t) or z3.is_var(t):
+            r = (False, frozenset(), 1)
+        elif z3.is_app(t):
+            ch = [visit(c) for c in t.children()]
+            vs = frozenset().union(*[c[1] for c in ch]) if ch else frozenset()
+            size = 1 + sum(c[2] for c in ch)
+            kind = t.decl().kind()
+            if t.num_args() == 0:
+                clean = True            # ground constant / numeral
+            else:
+                clean = kind in ok_kinds and all(c[0] for c in ch)
+            r = (clean, vs, size)
+        else:
+            r = (False, frozenset(), 1)
+        info[k] = r
+        return r
+
+    cands = {}
+    seen = set()
+    stack = [body]
+    while stack:
+        t = stack.pop()
+        k = t.get_id()
+        if k in seen or z3.is_quantifier(t):
+            continue
+        seen.add(k)
+        clean, vs, size = visit(t)
+        if z3.is_app(t) and t.num_args() > 0 and clean and vs and k not in bids and \
+                t.decl().kind() in (z3.Z3_OP_UNINTERPRETED, z3.Z3_OP_SELECT):
+            cands[k] = (t, vs, size)
+            # keep looking inside: smaller candidates may be needed as alternatives
+        if z3.is_app(t):
+            stack.extend(t.children())
+    if not cands:
+        return None
+    allv = frozenset(range(len(bound)))
+    items = sorted(cands.values(), key=lambda x: (x[2], str(x[0])))
+    alts = []
+    singles = [t for t, vs, size in items if vs == allv]
+    for t in singles[:max_alternatives]:
+        alts.append(t)
+    if len(alts) < max_alternatives and len(bound) > 1:
+        # greedy covers starting from different first terms
+        for t0, vs0, _ in items:
+            if vs0 == allv:
+                continue
+            cover, have = [t0], set(vs0)
+            for t1, vs1, _ in items:
+                if have >= allv:
+                    break
+                if not (vs1 <= have):
+                    cover.append(t1)
+                    have |= vs1
+            if have >= allv:
+                key = tuple(sorted(c.get_id() for c in cover))
+                if key not in [getattr(a, '_key', None) for a in alts]:
+                    mp = z3.MultiPattern(*cover)
+                    mp._key = key
+                    alts.append(mp)
+            if len(alts) >= max_alternatives:
+                break
+    return alts or None
+
+
+SPEC_API = {'same', 'at', 'ghost_zero_int', 'ghost_zero_key', 'mk_key', 'blen', 'bat', 'dcount', 'dord', 'smem', 'llen', 'lat', 'sel', 'upd', 'forall'}
